@@ -873,3 +873,9 @@ mutant("C06-M47", "C06", "R06n", "vector evaluation also keeps the last suspende
 twin("C06-T15", "C06", "skip window unpacked into locals, chained comparison", M, "Parameter.update", "                if (self.t[ti] >= self.skip_function[0]) and (self.t[ti] <= self.skip_function[1]):\n                    return", "                skip_start, skip_stop = self.skip_function\n                if skip_start <= self.t[ti] <= skip_stop:\n                    return")
 mutant("C06-M48", "C06", "R06m", "precompute decision nested under the dependency test (seeded C04f)", M, "Parameter.set_dynamic", "        if not self._is_dynamic:\n            self._precompute = True", "            if not self._is_dynamic:\n                self._precompute = True")
 twin("C06-T16", "C06", "precompute decision written as if / else", M, "Parameter.set_dynamic", "        if not self._is_dynamic:\n            self._precompute = True", "        if self._is_dynamic:\n            pass\n        else:\n            self._precompute = True")
+SC = "atomica/scenarios.py"
+mutant("C09-M24", "C09", "R09f", "parameter scenario edits the parset it was given", SC, "ParameterScenario.get_parset", "new_parset = sc.dcp(parset)", "new_parset = parset")
+mutant("C09-M25", "C09", "R09f", "parameter scenario sanitises its own stored values in place", SC, "ParameterScenario.get_parset", "                overwrite = sc.dcp(overwrite)\n", "")
+mutant("C09-M26", "C09", "R09f", "budget scenario keeps the caller's allocation object", SC, "BudgetScenario.__init__", "sc.dcp(alloc)", "alloc")
+mutant("C09-M27", "C09", "R09f", "parameter scenario keeps the caller's values object", SC, "ParameterScenario.__init__", "sc.dcp(scenario_values)", "scenario_values")
+twin("C09-T8", "C09", "parset copied with copy.deepcopy", SC, "ParameterScenario.get_parset", "new_parset = sc.dcp(parset)", "new_parset = copy.deepcopy(parset)", edits=[dict(file=SC, old="import numpy as np\n", new="import copy\nimport numpy as np\n"), dict(file=SC, func="ParameterScenario.get_parset", old="new_parset = sc.dcp(parset)", new="new_parset = copy.deepcopy(parset)")])
